@@ -3676,6 +3676,434 @@ def eval_derived(case):
         return "fail", [(site, f.mode, f.what, f.expected, f.observed, target)]
 
 
+# ===========================================================================
+# third dimension audit: options (F operands of other size, H precedence, I selection boundaries), ambient (G)
+# ===========================================================================
+def options_cases(tier):
+    for kind in ("metadata", "record", "file"):
+        for rel in ("equal", "other_larger", "other_smaller", "other_disjoint"):
+            yield {"kind": "audit", "fam": "options", "sub": "eq_size", "obj": kind, "rel": rel}
+    for depth in (0, 1, 3):
+        for beyond in (0, 1, 5):
+            yield {"kind": "audit", "fam": "options", "sub": "conformer_beyond", "depth": depth, "beyond": beyond}
+    yield {"kind": "audit", "fam": "options", "sub": "key_lookup"}
+    for n_rec in (0, 1, 2, 3):
+        for api in ("get", "set"):
+            yield {"kind": "audit", "fam": "options", "sub": "default_record", "n": n_rec, "api": api}
+    for how in ("setitem", "constructor"):
+        for hname in ("", "other", "A"):
+            yield {"kind": "audit", "fam": "options", "sub": "name_precedence", "how": how, "hname": hname}
+    for prop in ("charge", "element", "both"):
+        yield {"kind": "audit", "fam": "options", "sub": "prop_precedence", "prop": prop}
+    yield {"kind": "audit", "fam": "options", "sub": "extra_annotations"}
+    for pattern in itertools.product("23", repeat=2):
+        for cid in (None, "2D", "3D"):
+            yield {"kind": "audit", "fam": "options", "sub": "mixed_conformers", "pattern": "".join(pattern), "cid": cid}
+    for pattern in ("2", "3", "232"):
+        for cid in (None, "2D", "3D"):
+            yield {"kind": "audit", "fam": "options", "sub": "mixed_conformers", "pattern": pattern, "cid": cid}
+
+
+def eval_options(case):
+    import biotite.structure as struc
+    from biotite.structure.io import mol as molio
+
+    sub, pal = case["sub"], case["pal"]
+    site = "options[%s]" % sub
+    klass = sub
+
+    def rec(cid, meta=None):
+        c = REUSE_CONTENTS[cid]
+        m, ver, atoms = reuse_atoms(cid, pal)
+        r = molio.SDRecord(header=make_header(REUSE_HEADERS[c["h"]]),
+                           metadata=reuse_metadata(c["meta"] if meta is None else meta))
+        r.set_structure(atoms, **({} if ver is None else {"version": ver}))
+        return r
+
+    try:
+        if sub == "eq_size":
+            items = [[{"name": "a"}, "x"], [{"number": 1, "name": "b"}, "y"]]
+            more = items + [[{"name": "c"}, "z"]]
+            other_items = {"equal": items, "other_larger": more, "other_smaller": items[:1],
+                           "other_disjoint": [[{"name": "q"}, "x"], [{"name": "r"}, "y"]]}[case["rel"]]
+            if case["obj"] == "metadata":
+                a, b = reuse_metadata(items), reuse_metadata(other_items)
+            elif case["obj"] == "record":
+                a, b = rec("c1", items), rec("c1", other_items)
+            else:
+                a, b = molio.SDFile(), molio.SDFile()
+                for k, _ in items:
+                    a[k.get("name")] = rec("c1")
+                for k, _ in other_items:
+                    b[k.get("name")] = rec("c1")
+            want = case["rel"] == "equal"
+            klass = "%s_%s" % (case["obj"], case["rel"])
+            for x, y, lab in ((a, b, "self==other"), (b, a, "other==self")):
+                if (x == y) != want or (x != y) == want:
+                    raise Fail("eq_wrong", "%s of %ss where the other operand is '%s'" % (lab, case["obj"], case["rel"]),
+                               want, not want)
+            return "accepted", []
+        if sub == "conformer_beyond":
+            from biotite.interface.rdkit import from_mol, to_mol
+
+            rdkit()
+            mm = dict(chain_mol(2, pal), ann=[])
+            molobj = to_mol(rd_atoms(mm, case["depth"]))
+            k = max(1, case["depth"]) + case["beyond"]
+            try:
+                r = from_mol(molobj, conformer_id=k, add_hydrogen=False)
+            except Exception:  # noqa: BLE001
+                return "refused", []
+            raise Fail("not_refused", "from_mol(conformer_id=%d) on a Mol with %d conformers returns atoms" %
+                       (k, max(1, case["depth"])), "an exception", r.coord.tolist())
+        if sub == "key_lookup":
+            K = molio.Metadata.Key
+            md = molio.Metadata({K(number=1, name="a"): "v1", "b": "v2"})
+            checks = [("a" in md, False), (K(number=1, name="a") in md, True), ("b" in md, True), (K(name="b") in md, True),
+                      (K(number=1, name="b") in md, False), (K(number=2, name="a") in md, False),
+                      (K(number=1) in md, False), (md[K(number=1, name="a")], "v1"), (md["b"], "v2"), (len(md), 2)]
+            for i, (got, want) in enumerate(checks):
+                if got != want:
+                    raise Fail("lookup_%d" % i, "Metadata lookup with a key that has more / fewer parts (documented: a "
+                               "string only addresses keys that consist of a name)", want, got)
+            for k in ("a", K(name="a"), K(number=1, name="a", registry_internal=3)):
+                try:
+                    md[k]
+                except KeyError:
+                    continue
+                raise Fail("lookup_not_refused", "lookup of a key the metadata lacks", "KeyError", str(k))
+            return "accepted", []
+        if sub == "default_record":
+            n, api = case["n"], case["api"]
+            f = molio.SDFile()
+            cids = ["c1", "c2", "c3"][:n]
+            for i, cid in enumerate(cids):
+                f["r%d" % i] = rec(cid)
+            klass = "default_record_%s_%s" % (api, "empty" if n == 0 else "single" if n == 1 else "multi")
+            if api == "get":
+                if n == 0:
+                    try:
+                        molio.get_structure(f)
+                    except Exception:  # noqa: BLE001
+                        return "refused", []
+                    raise Fail("not_refused", "get_structure of an empty SD file", "an exception", None)
+                try:
+                    got = molio.get_structure(f)
+                except Exception as e:  # noqa: BLE001
+                    raise Fail("raises_" + type(e).__name__, "mol.get_structure(sd_file) without record_name (documented: "
+                               "'By default, the first record is used')", "structure of the first record",
+                               "%s: %s" % (type(e).__name__, e))
+                check_readback(reuse_atoms(cids[0], pal)[0], got, None, [])
+                return "accepted", []
+            m3, _, atoms3 = reuse_atoms("c0", pal)
+            before = {nm: f[nm].serialize() for nm in f}
+            molio.set_structure(f, atoms3)
+            names = list(f.keys())
+            if n == 0:
+                if names != ["Molecule"]:
+                    raise Fail("default_name", "set_structure on an empty SD file (documented: a new record is created)",
+                               ["Molecule"], names)
+                check_readback(m3, f["Molecule"].get_structure(), None, [])
+                return "accepted", []
+            if names != ["r%d" % i for i in range(n)]:
+                raise Fail("names_changed", "set_structure without record_name changed the record names", None, names)
+            check_readback(m3, f[names[0]].get_structure(), None, [])
+            for nm in names[1:]:
+                if f[nm].serialize() != before[nm]:
+                    raise Fail("other_record_changed", "set_structure without record_name (documented: first record) "
+                               "changed record %s" % nm, None, None)
+            return "accepted", []
+        if sub == "name_precedence":
+            r = rec("c1")
+            r.header.mol_name = case["hname"]
+            f = molio.SDFile({"A": r}) if case["how"] == "constructor" else molio.SDFile()
+            if case["how"] == "setitem":
+                f["A"] = r
+            recs = ctfile.parse_sdf(f.serialize())
+            g = molio.SDFile.read(io.StringIO(f.serialize()))
+            got = (recs[0]["header"][0], list(g.keys()), f["A"].header.mol_name)
+            if got != ("A", ["A"], "A"):
+                raise Fail("record_name_vs_header_name", "record name given explicitly and another mol_name in the header: "
+                           "the record name wins", ("A", ["A"], "A"), got)
+            klass = "%s_%s" % (case["how"], "same" if case["hname"] == "A" else "differs" if case["hname"] else "empty")
+            return "accepted", []
+        if sub in ("prop_precedence", "extra_annotations"):
+            from biotite.interface.rdkit import from_mol, to_mol
+
+            rdkit()
+            m = chain_mol(3, pal, {0: 1, 2: -2}, ["SINGLE", "DOUBLE"])
+            m["elem"] = ["C", "N", "O"]
+            mm = dict(m, ann=[])
+            a = build_atoms(m)
+            coords = np.array(m["coord"], dtype=np.float32).reshape(1, 3, 3)
+            if sub == "prop_precedence":
+                molobj = to_mol(a)
+                for at in molobj.GetAtoms():
+                    if case["prop"] in ("charge", "both"):
+                        at.SetIntProp("charge", 7)
+                    if case["prop"] in ("element", "both"):
+                        at.SetProp("element", "S")
+                back = from_mol(molobj, add_hydrogen=False)
+                klass = "prop_" + case["prop"]
+                rd_check_atoms(mm, back, coords, "atom properties named like the dedicated attributes (documented: "
+                               "element and charge come from the dedicated attributes)")
+                return "accepted", []
+            extra = {"foo": np.array([3, 4, 5]), "bar": np.array(["x", "y", "zz"]), "flt": np.array([0.5, 1.5, -2.25]),
+                     "flag": np.array([True, False, True])}
+            for k, v in extra.items():
+                a.set_annotation(k, v)
+            back = from_mol(to_mol(a, include_extra_annotations=list(extra) + ["charge", "element"]), add_hydrogen=False)
+            rd_check_atoms(mm, back, coords, "extra annotations")
+            for k, v in extra.items():
+                if k not in back.get_annotation_categories() or back.get_annotation(k).tolist() != v.tolist():
+                    raise Fail("extra_annotation_" + k, "annotation passed through include_extra_annotations",
+                               v.tolist(), back.get_annotation(k).tolist() if k in back.get_annotation_categories() else None)
+            return "accepted", []
+        if sub == "mixed_conformers":
+            from biotite.interface.rdkit import from_mol
+
+            Chem = rdkit()
+            pattern, cid = case["pattern"], case["cid"]
+            rw = Chem.RWMol()
+            for el in ("C", "O"):
+                at = Chem.Atom(el)
+                at.SetNoImplicit(True)
+                rw.AddAtom(at)
+            rw.AddBond(0, 1, Chem.BondType.DOUBLE)
+            molobj = rw.GetMol()
+            pos = []
+            for k, dim in enumerate(pattern):
+                cf = Chem.Conformer(2)
+                p = np.array([[k, 0, 0 if dim == "2" else 1], [k + 0.5, 1, 0 if dim == "2" else 2]], dtype=np.float64)
+                cf.SetPositions(p)
+                cf.Set3D(dim == "3")
+                molobj.AddConformer(cf, assignId=True)
+                pos.append(p.astype(np.float32))
+            sel = [p for p, dim in zip(pos, pattern) if cid is None or dim == cid[0]]
+            back = from_mol(molobj, conformer_id=cid, add_hydrogen=False)
+            klass = "conformers_%s_select_%s" % ("mixed" if len(set(pattern)) > 1 else "uniform", cid)
+            if not sel:
+                if back.stack_depth() != 1 or not np.isnan(back.coord).all():
+                    raise Fail("no_match", "no conformer of the requested kind (documented: one model of NaN)", "1 x NaN",
+                               back.coord.tolist())
+            elif back.stack_depth() != len(sel) or back.coord.tobytes() != np.stack(sel).tobytes():
+                raise Fail("selection", "conformers selected by kind (all of that kind, in order, none else)",
+                           [p.tolist() for p in sel], back.coord.tolist())
+            if back.element.tolist() != ["C", "O"]:
+                raise Fail("element", "elements", ["C", "O"], back.element.tolist())
+            return "accepted", []
+        raise ValueError(sub)
+    except Fail as f:
+        return "fail", [(site, f.mode, f.what, f.expected, f.observed, klass)]
+
+
+# ---- ambient: state outside the objects as an event between / around the operations -----------------------
+AMBIENT_STATES = ["default", "warnings_error", "np_errstate_raise", "np_printoptions", "cwd_changed", "decimal_context"]
+AMBIENT_OPS = ["ctab_v2000", "ctab_v3000", "sdf", "rdkit", "header_time"]
+PATH_ARGS = ["str_path", "pathlib", "text_handle", "stringio", "relative_after_chdir"]
+
+
+def ambient_cases(tier):
+    for op in AMBIENT_OPS:
+        for state in AMBIENT_STATES:
+            for when in ("during", "between_write_and_read"):
+                if state != "default" or when == "during":
+                    yield {"kind": "audit", "fam": "ambient", "sub": "state", "op": op, "state": state, "when": when}
+    for cls in ("MOLFile", "SDFile"):
+        for arg in PATH_ARGS:
+            yield {"kind": "audit", "fam": "ambient", "sub": "path", "cls": cls, "arg": arg}
+        yield {"kind": "audit", "fam": "ambient", "sub": "binary_handle", "cls": cls}
+
+
+class _Ambient:
+    """enter: change one piece of ambient state; exit: restore it"""
+
+    def __init__(self, state, tmpdir):
+        self.state, self.tmpdir = state, tmpdir
+
+    def __enter__(self):
+        import decimal
+        import os
+
+        s = self.state
+        if s == "warnings_error":
+            self.cm = warnings.catch_warnings()
+            self.cm.__enter__()
+            warnings.simplefilter("error")
+        elif s == "np_errstate_raise":
+            self.cm = np.errstate(all="raise")
+            self.cm.__enter__()
+        elif s == "np_printoptions":
+            self.cm = np.printoptions(precision=1, suppress=True, threshold=2, floatmode="fixed")
+            self.cm.__enter__()
+        elif s == "cwd_changed":
+            self.old = os.getcwd()
+            os.chdir(self.tmpdir)
+        elif s == "decimal_context":
+            self.old = decimal.getcontext().prec
+            decimal.getcontext().prec = 3
+        return self
+
+    def __exit__(self, *exc):
+        import decimal
+        import os
+
+        s = self.state
+        if s in ("warnings_error", "np_errstate_raise", "np_printoptions"):
+            self.cm.__exit__(*exc)
+        elif s == "cwd_changed":
+            os.chdir(self.old)
+        elif s == "decimal_context":
+            decimal.getcontext().prec = self.old
+        return False
+
+
+def ambient_op(op, pal, state, when, tmpdir):
+    """-> observable (text + read-back); the ambient change is active during everything or only between write and read"""
+    import contextlib
+    import datetime
+
+    from biotite.structure.io import mol as molio
+
+    m = flavour_base(pal)
+    m["coord"][0][0] = f32("-9999.999")
+    m["coord"][1][1] = f32("0.00005")
+    a = build_atoms(m)
+    amb = lambda: _Ambient(state, tmpdir)          # noqa: E731
+    whole = amb() if when == "during" else contextlib.nullcontext()
+    part = amb() if when != "during" else contextlib.nullcontext()
+    with whole:
+        if op.startswith("ctab"):
+            from biotite.structure.io.mol.ctab import read_structure_from_ctab, write_structure_to_ctab
+
+            lines = write_structure_to_ctab(a, version=op[5:].upper())
+            with part:
+                back = read_structure_from_ctab(lines)
+            return (lines, snapshot(back))
+        if op in ("sdf", "header_time"):
+            h = molio.Header(mol_name="n", time=datetime.datetime(2001, 2, 3, 4, 5), energy="1.5")
+            r = molio.SDRecord(header=h, metadata={"k": "v\nw"})
+            r.set_structure(a)
+            f = molio.SDFile()
+            f["n"] = r
+            text = f.serialize()
+            with part:
+                g = molio.SDFile.read(io.StringIO(text))
+                rec = g["n"]
+                return (text, header_tuple(rec.header), meta_list(rec.metadata), snapshot(rec.get_structure()))
+        from biotite.interface.rdkit import from_mol, to_mol
+
+        rdkit()
+        molobj = to_mol(a)
+        e = rd_extract(molobj)
+        with part:
+            back = from_mol(molobj, add_hydrogen=False)
+        return (e, stack_snapshot(back))
+
+
+def eval_ambient(case):
+    import os
+    import shutil
+    import tempfile
+
+    from biotite.structure.io import mol as molio
+    from mc import loader
+
+    pal = case["pal"]
+    site = "ambient[%s]" % case["sub"]
+    loader.BUILD.mkdir(parents=True, exist_ok=True)
+    tmpdir = tempfile.mkdtemp(prefix="c18-ambient-", dir=str(loader.BUILD))
+    cwd0 = os.getcwd()
+    try:
+        if case["sub"] == "state":
+            want = ambient_op(case["op"], pal, "default", "during", tmpdir)
+            try:
+                got = ambient_op(case["op"], pal, case["state"], case["when"], tmpdir)
+            except Exception:  # noqa: BLE001
+                return "unspecified_refused", []       # e.g. a warning turned into an error: not forbidden
+            if got != want:
+                raise Fail("depends_on_" + case["state"], "result of %s depends on ambient state (%s, %s)" %
+                           (case["op"], case["state"], case["when"]), str(want)[:300], str(got)[:300])
+            return "accepted", []
+        m, ver, atoms = reuse_atoms("c1", pal)
+        if case["cls"] == "MOLFile":
+            f = molio.MOLFile()
+            f.header = make_header(REUSE_HEADERS["full"])
+            f.set_structure(atoms)
+            cls = molio.MOLFile
+        else:
+            f = molio.SDFile()
+            r = molio.SDRecord(header=make_header(REUSE_HEADERS["full"]), metadata={"k": "v"})
+            r.set_structure(atoms)
+            f["name"] = r
+            cls = molio.SDFile
+        ref = io.StringIO()
+        f.write(ref)
+        text = ref.getvalue()
+        if case["sub"] == "binary_handle":
+            p = os.path.join(tmpdir, "b.sdf")
+            for mode, action in (("wb", lambda h: f.write(h)), ("rb", lambda h: cls.read(h))):
+                if mode == "rb":
+                    with open(p, "w") as h:
+                        h.write(text)
+                with open(p, mode) as h:
+                    try:
+                        action(h)
+                    except TypeError:
+                        continue
+                    except Exception as e:  # noqa: BLE001
+                        raise Fail("wrong_exception", "binary handle (documented: TypeError)", "TypeError", type(e).__name__)
+                    raise Fail("not_refused", "file object in binary mode accepted (%s)" % mode, "TypeError", None)
+            return "refused", []
+        arg = case["arg"]
+        import pathlib
+
+        p = os.path.join(tmpdir, "x.sdf")
+        if arg == "str_path":
+            f.write(p)
+            g = cls.read(p)
+        elif arg == "pathlib":
+            f.write(pathlib.Path(p))
+            g = cls.read(pathlib.Path(p))
+        elif arg == "text_handle":
+            with open(p, "w") as h:
+                f.write(h)
+            with open(p) as h:
+                g = cls.read(h)
+        elif arg == "stringio":
+            g = cls.read(io.StringIO(text))
+            with open(p, "w") as h:
+                h.write(text)
+        else:
+            os.chdir(tmpdir)
+            f.write("x.sdf")
+            sub = os.path.join(tmpdir, "sub")
+            os.mkdir(sub)
+            os.chdir(sub)                                   # the event: cwd changes between write and read
+            try:
+                cls.read("x.sdf")
+            except Exception:  # noqa: BLE001
+                pass
+            else:
+                raise Fail("stale_cwd", "relative path resolved against an earlier working directory", "not found", None)
+            g = cls.read(os.path.join("..", "x.sdf"))
+        with open(p) as h:
+            on_disk = h.read()
+        if on_disk != text:
+            raise Fail("file_text", "text written through %s differs from the text written to a StringIO" % arg,
+                       text[:200], on_disk[:200])
+        out = io.StringIO()
+        g.write(out)
+        if out.getvalue() != text:
+            raise Fail("reread_text", "object read through %s serialises differently" % arg, text[:200], out.getvalue()[:200])
+        return "accepted", []
+    except Fail as fl:
+        return "fail", [(site, fl.mode, fl.what, fl.expected, fl.observed, case.get("state") or case.get("arg") or case["sub"])]
+    finally:
+        os.chdir(cwd0)
+        shutil.rmtree(tmpdir, ignore_errors=True)
+
+
 # ---- driver ------------------------------------------------------------------------------------------------
 def audit_cases(tier):
     yield from alias_cases(tier)
@@ -3685,6 +4113,8 @@ def audit_cases(tier):
     yield from identity_cases(tier)
     yield from combo_cases(tier)
     yield from derived_cases(tier)
+    yield from options_cases(tier)
+    yield from ambient_cases(tier)
 
 
 def run_audit_case(ctx, case):
@@ -3702,6 +4132,10 @@ def run_audit_case(ctx, case):
         res, fails = eval_combo(case)
     elif fam == "derived":
         res, fails = eval_derived(case)
+    elif fam == "options":
+        res, fails = eval_options(case)
+    elif fam == "ambient":
+        res, fails = eval_ambient(case)
     else:
         fails = eval_lazy(case)
     ctx.ev(1, 1)
@@ -3778,7 +4212,7 @@ def shards(tier, seed):
     out += [{"kind": "rd", "part": p, "of": k} for p in range(k)]
     k = 4 if q else 16
     out += [{"kind": "reuse", "part": p, "of": k} for p in range(k)]
-    out += [{"kind": "audit", "fam": fam} for fam in ("alias", "flavour", "shape", "lazy", "identity", "combo", "derived")]
+    out += [{"kind": "audit", "fam": fam} for fam in ("alias", "flavour", "shape", "lazy", "identity", "combo", "derived", "options", "ambient")]
     big = [s for s in out if s["kind"] == "big" and s["case"]["n"] >= 900]
     rest = [s for s in out if s not in big]
     r = seed % max(1, len(rest))
